@@ -13,7 +13,7 @@ import (
 
 func init() {
 	register("C15",
-		"RDC-1: for every Read([]byte)(int,error) method of mailbox (NoiseGrpcConn, NoiseConn, connKit) every returned count is the constant 0, the result of copy(b, ...), or the count of a delegated Read(b) on a receiver-owned buffer - hence n <= len(b) on every path. RDC-2: the source of such a copy is a prefix of a receiver field F, F is advanced by exactly the copy count on every path to the return, F is only refilled when empty and only with a whole received message, and nobody else writes F; a received message otherwise flows whole into a receiver-owned bytes.Buffer. RDC-3: Write methods return 0 with an error, the count of Flush, or len(b) after the whole b was handed to the layer below; chunked writes are contiguous and accumulate the flushed count before testing the error; WriteMessage encrypts a new record only when nothing of the previous one is pending (accepted bytes are never overwritten). A payload is taken out of a message struct that is created anew for every receive. DUPLEX (as C05/C08): Decrypt on the read path and Encrypt on the write path use fresh destination buffers and the two paths share no Machine field, so bytes retained between Read calls are never overwritten. RDC-4: a Read that serves the caller through bytes.Buffer.Read (which reports io.EOF on an empty buffer) does so only under Len() != 0, so an empty record or empty message of the peer cannot end the stream. TRUNC: every narrowing integer conversion in mailbox is dominated by a bound that makes it exact (no silent truncation of lengths). RDC-3 record limit: a Write method that chunks hands the whole buffer over only under a proved len(b) <= 65535 and never cuts chunks of a constant above it. The obligations of C08 (nonce/rotation lock-step, PAIR) are imported as LAYER/C08. RDC-2 also: the bytes.Buffer a Read method delegates to is never replaced, reset or truncated. RDC-2 also (F17, fix a2d56b4): every function that installs a new noise Machine on a NoiseGrpcConn drops the retained tail (nextMsg = nil) on every path to a successful return, and nothing else outside Read writes that field. RDC-2 also: inside NoiseGrpcConn.Read the mutex of the retained tail is not released before the last use of the tail / of ReadMessage (check, receive and store are one critical section). Not decided: the equality of concatenations as a property of histories (follows from RDC-1/2/3 + C08 + C16 only by an inductive argument the checker does not make).",
+		"RDC-1: for every Read([]byte)(int,error) method of mailbox (NoiseGrpcConn, NoiseConn, connKit) every returned count is the constant 0, the result of copy(b, ...), or the count of a delegated Read(b) on a receiver-owned buffer - hence n <= len(b) on every path. RDC-2: the source of such a copy is a prefix of a receiver field F, F is advanced by exactly the copy count on every path to the return, F is only refilled when empty and only with a whole received message, and nobody else writes F; a received message otherwise flows whole into a receiver-owned bytes.Buffer. RDC-3: Write methods return 0 with an error, the count of Flush, or len(b) after the whole b was handed to the layer below; chunked writes are contiguous and accumulate the flushed count before testing the error; WriteMessage encrypts a new record only when nothing of the previous one is pending (accepted bytes are never overwritten). A payload is taken out of a message struct that is created anew for every receive. DUPLEX (as C05/C08): Decrypt on the read path and Encrypt on the write path use fresh destination buffers and the two paths share no Machine field, so bytes retained between Read calls are never overwritten. RDC-4: a Read that serves the caller through bytes.Buffer.Read (which reports io.EOF on an empty buffer) does so only under Len() != 0, so an empty record or empty message of the peer cannot end the stream. TRUNC: every narrowing integer conversion in mailbox is dominated by a bound that makes it exact (no silent truncation of lengths). RDC-3 record limit: a Write method that chunks hands the whole buffer over only under a proved len(b) <= 65535 and never cuts chunks of a constant above it. The obligations of C08 (nonce/rotation lock-step, PAIR) are imported as LAYER/C08. RDC-2 also: the bytes.Buffer a Read method delegates to is never replaced, reset or truncated. RDC-2 also (F17, fix a2d56b4): every function that installs a new noise Machine on a NoiseGrpcConn drops the retained tail (nextMsg = nil) on every path to a successful return, and nothing else outside Read writes that field. RDC-2 also: inside NoiseGrpcConn.Read the mutex of the retained tail is not released before the last use of the tail / of ReadMessage (check, receive and store are one critical section). GUARD: a frozen table (field -> mutex, discovered from the tree and confirmed by reading) of the mutable state of NoiseGrpcConn, ServerConn, ClientConn and Client; every access outside the allocating functions holds the mutex (interprocedural must-lockset; exclusive for writes); the two unguarded reads in ServerConn.Close are accepted only while they come after gbnConn.Close(), which joins every goroutine that can replace the streams. Not decided: the equality of concatenations as a property of histories (follows from RDC-1/2/3 + C08 + C16 only by an inductive argument the checker does not make).",
 		[]string{"bytes.Buffer.Read/Write implement the io.Reader/io.Writer contract; copy returns min(len(dst), len(src))"},
 		runC15)
 }
@@ -104,6 +104,9 @@ func runC15(c *Checker) {
 	c.floor("RDC-1", 6)
 	ruleSessionReset(c, "RDC-2")
 	ruleReadAtomic(c, "RDC-2")
+	// net.Conn: "multiple goroutines may invoke methods on a Conn simultaneously" - the mutable
+	// state of the secured connections is reached only under its mutex (frozen guard table)
+	ruleGuardTable(c, "GUARD")
 	c.floor("RDC-2", 8)
 	writes := ioMethods(w, targetMbox, "Write")
 	for _, fn := range writes {
